@@ -144,6 +144,15 @@ void run_c07(const std::vector<std::vector<std::string>>& cases, vt::Rng& rng)
             ev.num("a1L", calculate_amu_1loop(b.model)).num("a2L", calculate_amu_2loop(b.model))
               .num("tbcor", tan_beta_cor(b.model)).num("unc2L", calculate_uncertainty_amu_2loop(b.model))
               .num("mmin", mmin).num("MZ", p.MZ);
+            // magnitudes of the individual terms (scale against which O(MZ^2/M^2) corrections are measured)
+            const double s1 = std::fabs(amu1LWHnu(b.model)) + std::fabs(amu1LWHmuL(b.model))
+               + std::fabs(amu1LBHmuL(b.model)) + std::fabs(amu1LBHmuR(b.model)) + std::fabs(amu1LBmuLmuR(b.model));
+            const double s1b = std::fabs(amu1LChi0(b.model)) + std::fabs(amu1LChipm(b.model));
+            const double s2 = std::fabs(amu2LWHnu(b.model)) + std::fabs(amu2LWHmuL(b.model))
+               + std::fabs(amu2LBHmuL(b.model)) + std::fabs(amu2LBHmuR(b.model)) + std::fabs(amu2LBmuLmuR(b.model))
+               + std::fabs(amu2LChi0Photonic(b.model)) + std::fabs(amu2LChipmPhotonic(b.model))
+               + std::fabs(amu2LaSferm(b.model)) + std::fabs(amu2LaCha(b.model));
+            ev.num("S1", std::max(s1, s1b)).num("S2", s2);
          }
          ev.emit();
       }
